@@ -179,5 +179,7 @@ def run(ctx):
     from ..rules_common import check_effect_tables
     check_effect_tables(ctx, "C09")
     check_presence_tests(ctx, "C09.PRESENCE", classes=ARG_SCOPE.get("C09", []))
+    from ..rules_common import check_param_rebinding
+    check_param_rebinding(ctx, "C09.PARAMS", classes=ARG_SCOPE.get("C09", []))
 
 
